@@ -312,7 +312,7 @@ func checkSolv(items []item, max int, over bool, brkTok string, out string, line
 	// the real code again, twice: fresh map iteration orders
 	for rep := 0; rep < 2; rep++ {
 		var m algz.DpSolvers[item]
-		if r := core.Guard(func() string { m = runSolv(items, max, over, brk); return "" }); r == "panic" {
+		if r := core.Guard(func() string { m = runSolv(items, max, over, brk, &inputFlag{}); return "" }); r == "panic" {
 			return fail("solvers-panic", "%q: FindDpSolvers panicked", line)
 		}
 		if f := checkSolvMap(items, max, over, m, line); f != nil {
@@ -334,9 +334,8 @@ func (gc *graphCase) adjacency() adj {
 	for i := range a {
 		a[i] = make([]bool, gc.n)
 	}
-	for _, e := range gc.und {
+	for e := range gc.dir {
 		a[e[0]][e[1]] = true
-		a[e[1]][e[0]] = true
 	}
 	return a
 }
@@ -588,8 +587,8 @@ func compareCliques(got [][]int, want []int, line string) *core.Failure {
 }
 
 func checkGraphOp(gc *graphCase, t []string, out, line string) *core.Failure {
-	if len(gc.arcs) > 0 {
-		return nil // not an undirected graph: outside the domain
+	if gc.asym {
+		return nil // the final arc set is not symmetric: not an undirected graph, outside the domain
 	}
 	a := gc.adjacency()
 	if gc.n > bruteMaxVertices {
@@ -683,6 +682,11 @@ func check(c core.Case, out []string) *core.Failure {
 	}
 	if len(hdr) < 3 || out[0] != "ok" {
 		return nil
+	}
+	for i := 1; i < len(out) && i < len(c.Lines); i++ {
+		if j := strings.Index(out[i], " LEDGER:"); j >= 0 {
+			return fail("result-or-input-changed-later", "%q / %q: %s (a slice returned by an earlier call, or the caller's input, changed during this call)", c.Lines[0], c.Lines[i], out[i][j+8:])
+		}
 	}
 	switch hdr[2] {
 	case "dp":
@@ -905,7 +909,7 @@ func classify(c core.Case, out []string) []string {
 					iso++
 				}
 			}
-			if iso > 0 && len(gc.arcs) == 0 {
+			if iso > 0 && !gc.asym {
 				ls = append(ls, "graph:isolated-vertex")
 			}
 			if gc.n == 0 {
@@ -925,7 +929,11 @@ func classify(c core.Case, out []string) []string {
 	if hdr[2] == "graph" && len(hdr) > 3 {
 		for _, e := range hdr[4:] {
 			if strings.Contains(e, ">") {
-				ls = append(ls, "graph:directed-arc(malformed)")
+				if gc, ok := parseGraph(hdr[3:]); ok && !gc.asym {
+					ls = append(ls, "graph:mixed-AddEdge/AddUndirectedEdge(symmetric)")
+				} else {
+					ls = append(ls, "graph:directed-arc(malformed)")
+				}
 				break
 			}
 		}
